@@ -41,7 +41,7 @@ theorem inv5_fstep {P : Project} {s s' : State} {t : Tid} (inv1 : Inv1 P s) (inv
   have ⟨i1,i2,i3,i4,i5,i6,i7,i8,i9,i10,i11,i12⟩ := inv1
   have ⟨j1,j2,j3,j4,j5,j6,j7,j8,j9⟩ := inv2
   have ⟨m1,m2,m3,m4,m5,m6,m7⟩ := inv
-  cases st <;> constructor <;> simp only [setPc, publish, upd, okLoaded, resOf] at * <;> first | grind [target] | skip
+  cases st <;> constructor <;> simp only [setPc, publish, goSleep, upd, okLoaded, resOf] at * <;> first | grind [target] | skip
   case load.done_prefix d hpc =>
     intro t1 f hf pre hp d1 hd1
     by_cases ht : t1 = t
@@ -191,7 +191,7 @@ theorem nofail_fstep {P : Project} {s s' : State} {t : Tid} (hac : Acyclic P) (h
     have := hnb f.mod (inv4.reg_reach f.mod (inv1.frame_reg t f (by simp [hst])))
     rw [this] at hb; cases hb
   all_goals
-    constructor <;> simp only [setPc, publish, upd, resOf] at * <;> grind
+    constructor <;> simp only [setPc, publish, goSleep, upd, resOf] at * <;> grind
 
 theorem nofail_reachable {P : Project} (hac : Acyclic P) (hnb : NoBroken P) {s : State} (h : Reachable .fixed P s) :
     NoFail s :=
@@ -220,7 +220,7 @@ theorem onlycyc_fstep {P : Project} {s s' : State} {t : Tid} (hnb : NoBroken P) 
     have := hnb f.mod (inv4.reg_reach f.mod (inv1.frame_reg t f (by simp [hst])))
     rw [this] at hb; cases hb
   all_goals
-    constructor <;> simp only [setPc, publish, upd, resOf] at * <;> grind
+    constructor <;> simp only [setPc, publish, goSleep, upd, resOf] at * <;> grind
 
 theorem onlycyc_reachable {P : Project} (hnb : NoBroken P) {s : State} (h : Reachable .fixed P s) : OnlyCyc s :=
   reachable_induction (I := OnlyCyc) (onlycyc_init P)
